@@ -659,6 +659,78 @@ func sweep(r *mon.Run, c Case) {
 	}
 }
 
+// sweepOptionOrders: ONE entry (same key bytes, message, signature) added again and again to one batch under changing
+// option sets - every non-panicking set of the 32 in a PRNG order, then in the reverse order - so that every set
+// follows every kind of other set directly, on the plain, the non-expanding and the expanded add path. Each bit must
+// equal the single verification under that entry's own options: nothing decided for one entry may carry over to the
+// next one because the key bytes are the same.
+func sweepOptionOrders(r *mon.Run, c Case) {
+	it := pool[c.Size]
+	if len(it.pk) != 32 {
+		return
+	}
+	rng := r.Rng(fmt.Sprintf("c09/option-orders/%d", c.Size))
+	var fls []int
+	var wants []bool
+	for _, fl := range rng.Perm(32) {
+		w, wpan := single(it.pk, it.msg, it.sig, optsFor(it.c, fl))
+		if wpan {
+			continue
+		}
+		fls = append(fls, fl)
+		wants = append(wants, w)
+	}
+	for _, reverse := range []bool{false, true} {
+		for mode := 0; mode < 3; mode++ {
+			if mode == 2 && it.exp == nil {
+				continue
+			}
+			order := append([]int{}, fls...)
+			ws := append([]bool{}, wants...)
+			if reverse {
+				for i, j := 0, len(order)-1; i < j; i, j = i+1, j-1 {
+					order[i], order[j] = order[j], order[i]
+					ws[i], ws[j] = ws[j], ws[i]
+				}
+			}
+			var bits []bool
+			var all bool
+			pan, pmsg := mon.Try(func() {
+				bv := ed25519.NewBatchVerifier()
+				if mode == 1 {
+					bv.ForceNoPublicKeyExpansion()
+				}
+				kbuf := make([]byte, 32)
+				for _, fl := range order {
+					copy(kbuf, it.pk) // the same bytes in the caller's recycled buffer
+					if mode == 2 {
+						bv.AddExpandedWithOptions(it.exp, it.msg, it.sig, optsFor(it.c, fl))
+					} else {
+						bv.AddWithOptions(kbuf, it.msg, it.sig, optsFor(it.c, fl))
+					}
+					for i := range kbuf {
+						kbuf[i] = 0
+					}
+				}
+				all, bits = bv.Verify(nil)
+			})
+			r.Eval(nil)
+			r.Hist(fmt.Sprintf("sweep/option-orders/mode%d", mode))
+			wantAll := true
+			for _, w := range ws {
+				wantAll = wantAll && w
+			}
+			bad := pan || len(bits) != len(ws) || all != wantAll
+			for i := 0; !bad && i < len(ws); i++ {
+				bad = bits[i] != ws[i]
+			}
+			if bad {
+				r.Violate("sweep/one-entry-under-changing-options", fmt.Sprintf("family %s, mode %d (0 plain, 1 no expansion, 2 expanded), option sets in order %v: batch says %v %v (panic=%v %s), single verification says %v", it.c.Fam, mode, order, all, bits, pan, pmsg, ws), map[string]any{"case": c})
+			}
+		}
+	}
+}
+
 func runCase(r *mon.Run, c Case) {
 	if c.Kind == "entropy" {
 		entropyCase(r, c)
@@ -667,6 +739,7 @@ func runCase(r *mon.Run, c Case) {
 	switch c.Kind {
 	case "sweep":
 		sweep(r, c)
+		sweepOptionOrders(r, c)
 	case "history":
 		history(r, c)
 	case "cache":
